@@ -181,6 +181,14 @@ class Interp:
             f = dotted(n.func) or ""
             if f == "isinstance" and len(n.args) == 2:
                 obj = self.ev(n.args[0])
+                if obj is None or (isinstance(obj, (int, float, str)) and obj is not TOP):
+                    # a plain Python value of the request (the width may be an int as well as a float)
+                    PY = {"float": (float,), "int": (int,), "bool": (bool,), "complex": (complex,), "str": (str,), "numbers.Real": (int, float), "numbers.Number": (int, float, complex),
+                          "numbers.Integral": (int,), "np.floating": (float,), "np.integer": (), "np.number": (float,), "type(None)": (type(None),), "NoneType": (type(None),)}
+                    tn = [U(e) for e in n.args[1].elts] if isinstance(n.args[1], ast.Tuple) else [U(n.args[1])]
+                    if all(t in PY for t in tn):
+                        return isinstance(obj, tuple(x for t in tn for x in PY[t]))
+                    raise Unsupported(f"CLASSSEL: isinstance `{U(n)[:50]}` not interpretable", rule="CLASSSEL")
                 cls = self.ev(n.args[1])
                 names = [c.name for c in (cls if isinstance(cls, list) else [cls])]
                 if isinstance(obj, dict) and "__isa__" in obj:
@@ -292,9 +300,27 @@ def check_classsel(ctx: Ctx):
     st = stmt_index(fv).statement(loc[0]) if loc else None
     cand = U(st.targets[0]) if isinstance(st, ast.Assign) else None
     loops = [s for s in fv.statements() if isinstance(s, ast.For) and U(s.iter) == cand and isinstance(s.target, ast.Name)]
+    if not loops:
+        # the conversion written as a comprehension over the candidates: X = [ELT for d in candidates] ≡ X = []; for d …: X.append(ELT)
+        for s in fv.statements():
+            v = s.value if isinstance(s, (ast.Assign, ast.AnnAssign)) else None
+            tg = (s.targets[0] if isinstance(s, ast.Assign) and len(s.targets) == 1 else getattr(s, "target", None)) if v is not None else None
+            if isinstance(v, ast.ListComp) and len(v.generators) == 1 and not v.generators[0].ifs and U(v.generators[0].iter) == cand \
+                    and isinstance(v.generators[0].target, ast.Name) and isinstance(tg, ast.Name):
+                app = ast.Expr(value=ast.Call(func=ast.Attribute(value=ast.Name(id=tg.id, ctx=ast.Load()), attr="append", ctx=ast.Load()), args=[v.elt], keywords=[]))
+                synth = ast.For(target=v.generators[0].target, iter=v.generators[0].iter, body=[app], orelse=[])
+                ast.copy_location(synth, s)
+                ast.fix_missing_locations(synth)
+                synth._stmt = s
+                loops.append(synth)
     if len(loops) != 1:
         raise AnalysisError("candidate loop of locate_droplets not found", rule="CLASSSEL")
     lp = loops[0]
+    cand_top = None
+    for s_ in fi.node.body:
+        if st is not None and (s_ is st or any(x is st for x in ast.walk(s_))):
+            cand_top = s_
+    lp_stmt = getattr(lp, "_stmt", lp)  # the statement of the function that performs the conversion
     dv = lp.target.id
     field = fi.params[0]
     # the early validity checks (statements before the threshold dispatch that only read the configuration)
@@ -306,6 +332,28 @@ def check_classsel(ctx: Ctx):
     read = set()
     for s in lp.body:
         read |= names_in(s)
+    # statements between the candidates and the conversion that define what the conversion reads (a selection hoisted out
+    # of the loop: `droplet_class = …` once for all candidates) belong to the fragment
+    hoisted = []
+    if cand_top is not None:
+        needed = set(read) - {dv}
+        between = []
+        seen_c = False
+        for s_ in fi.node.body:
+            if s_ is lp_stmt or any(x is lp_stmt for x in ast.walk(s_)):
+                break
+            if seen_c:
+                between.append(s_)
+            if s_ is cand_top:
+                seen_c = True
+        for s_ in reversed(between):
+            st_names = {x.id for x in ast.walk(s_) if isinstance(x, ast.Name) and isinstance(x.ctx, ast.Store)}
+            st_names |= {x.value.id for x in ast.walk(s_) if isinstance(x, ast.Subscript) and isinstance(x.ctx, ast.Store) and isinstance(x.value, ast.Name)}
+            if isinstance(s_, (ast.Assign, ast.AnnAssign, ast.AugAssign, ast.If)) and (st_names & needed) and cand not in st_names:
+                hoisted.insert(0, s_)
+                needed |= names_in(s_)
+        for s_ in hoisted:
+            read |= names_in(s_)
     banned = {"threshold", "refine", "refine_args", "minimal_radius", "num_processes"}
     foreign = read & banned
     for x in ast.walk(lp):
@@ -325,9 +373,9 @@ def check_classsel(ctx: Ctx):
 
     def _collect(block):
         for s_ in block:
-            if s_ is lp or any(x is lp for x in ast.walk(s_)):
+            if s_ is lp_stmt or any(x is lp_stmt for x in ast.walk(s_)):
                 break
-            if s_ in pre or s_ in dim_def:
+            if s_ in pre or s_ in dim_def or s_ in hoisted:
                 continue
             if isinstance(s_, (ast.FunctionDef, ast.ClassDef, ast.Import, ast.ImportFrom)):
                 continue
@@ -337,7 +385,17 @@ def check_classsel(ctx: Ctx):
     _collect(fi.node.body)
     n_cfg, bad = 0, []
     samples = []
-    for (family, dim), modes, width, refine in itertools.product(FAMILIES, (0, 2, 3), (None, 0.0, 1.5), (False, True)):
+    # mode counts: 0, the smallest request (1), typical ones, and the neighbours of every integer literal the function compares
+    # or combines with a configuration variable (boundary values of whatever threshold the code uses)
+    lits = set()
+    for n_ in ast.walk(fi.node):
+        if isinstance(n_, ast.Compare) and (names_in(n_) & CFG_NAMES):
+            for c_ in [n_.left] + list(n_.comparators):
+                if isinstance(c_, ast.Constant) and isinstance(c_.value, int) and not isinstance(c_.value, bool) and 0 <= c_.value <= 16:
+                    lits.update({c_.value - 1, c_.value, c_.value + 1})
+    mode_values = tuple(sorted({0, 1, 2, 3} | {v for v in lits if 0 <= v <= 17}))
+    width_values = (None, 0.0, 1.5, 1)
+    for (family, dim), modes, width, refine in itertools.product(FAMILIES, mode_values, width_values, (False, True)):
         n_cfg += 1
         grid = {"__isa__": GRID_ISA[family], "dim": dim, **GRID_FACTS[family](dim)}
         env = {
@@ -353,6 +411,7 @@ def check_classsel(ctx: Ctx):
             # interface_width, dim) take part in the selection: `modes = 0 on symmetric grids`, `width = max(width, dx)` …
             for s_pre in prefix_cfg:
                 it.run([s_pre])
+            it.run(hoisted)
             it.run(lp.body)
             if len(it.out) != 1:
                 got = ("stores", len(it.out))
@@ -381,6 +440,11 @@ def check_classsel(ctx: Ctx):
                         got = ("TypeError", d.cls, tuple(sorted(extra)))
         except Raised as r:
             got = (r.name,)
+        except Unsupported:
+            if not foreign:
+                raise
+            # the fragment reads something outside the request (reported by SLICE): its outcome is not a function of the request
+            got = ("depends on " + ", ".join(sorted(foreign)),)
         if want[0] == "ValueError":
             ok = got == ("ValueError",)
         elif refine:
@@ -395,7 +459,7 @@ def check_classsel(ctx: Ctx):
     ctx.extra["config_samples"] = samples
     if bad:
         cfg, want, got = bad[0]
-        ctx.violate("CLASSSEL", site, (fi, lp),
+        ctx.violate("CLASSSEL", site, (fi, lp_stmt),
                     f"{len(bad)} of {n_cfg} configurations give the wrong result; e.g. (grid={cfg[0]}, dim={cfg[1]}, modes={cfg[2]}, interface_width={cfg[3]}, refine={cfg[4]}): "
                     f"expected {want} (class, amplitudes, width) but the code yields {got}")
     else:
@@ -409,7 +473,7 @@ def check_classsel(ctx: Ctx):
         r = rn.stmt
         if r.value is None or cand_st is None or not fv.dominates(cand_st, r):
             continue
-        if fv.dominates(lp, r):
+        if fv.dominates(lp_stmt, r):
             continue
         val = fv.expand(r.value, r, stop=(cand, field), allow_mutated=True)
         if cand in names_in(val):
